@@ -6,10 +6,13 @@ Pipeline (DESIGN.md §5 C06, design.d/C06.md):
      ExtraLaw) and the examples of the GraphQL specification text (ASSUMEs in GQLCoerce.tla).
   2. The same run enumerates the cases (Gen_Coerce: variable type x default mode x value from the menus x
      shape of the "variables" member, two-variable operations) with the verdict the specification prescribes.
-  3. harness/cmd/vars replays every case into the real code, five observers per case:
+  3. harness/cmd/vars replays every case into the real code, seven observers per case:
        engine  ExecutionEngine.Execute against a recording subgraph (accepted <=> no error and request sent)
        val     VariablesValidator.ValidateWithRemap after the engine's normalization steps
        valq    the same with DisableExposingVariablesContent
+       engl / engp   ONE long-lived engine executes every case twice, as it arrives and normalized by the caller first
+               (graphql.Request.Normalize, then Execute, which branches on IsNormalized()); the 2N requests are interleaved
+               in a seed-shuffled order (history independence of the whole engine, judged by the same invariants)
        vall / vallq  the same two, but ONE long-lived validator instance each validates the whole sequence of cases in a
                seed-shuffled order (history independence: the acceptor has no state, so these lines are judged by the
                same invariants as those of a fresh validator)
@@ -28,7 +31,7 @@ from concurrent.futures import ThreadPoolExecutor
 import lib
 
 TRACE_FIELDS = ("id", "case", "who", "acc", "expose", "nq", "q", "leak")
-WHOS = ("engine", "val", "valq", "vall", "vallq")
+WHOS = ("engine", "val", "valq", "vall", "vallq", "engl", "engp")
 
 
 def case_id(case):
@@ -316,8 +319,9 @@ def run(ctx):
         "rule": "one case = (operation with 1-2 variable definitions incl. default mode and argument position, abstract JSON "
                 "value per variable from the menus, shape of the variables member); distinct by hash of the case; "
                 "non-trivial = the specification rejects it or a list/object value is involved; each case is observed "
-                "five times (engine; fresh validator with / without content exposure; one long-lived validator instance "
-                "with / without content exposure over the whole seed-shuffled sequence) and every observation is one "
+                "seven times (fresh engine lane; fresh validator with / without content exposure; one long-lived validator instance "
+                "with / without content exposure over the whole seed-shuffled sequence; one long-lived engine executing every case "
+                "as it arrives and caller-normalized, interleaved in a seed-shuffled order) and every observation is one "
                 "line validated by TLC against Trace_Coerce",
         "observations_disagreeing_with_spec": nflag,
         "spec_accepts": sum(1 for c in chosen if c["expected"]["accept"]),
